@@ -265,8 +265,8 @@ def bounded_status(first_only=True):
 
 
 def bounded(chk):
-    nf, badf = filename_search(3 if chk.tier == "quick" else 5)
-    chk.bounded_result("content_disposition_filenames", nf, nf, True, "all names over an 11-symbol alphabet (delimiters, space, non-ASCII) up to length 3 (quick) / 5 (thorough)",
+    nf, badf = filename_search(3 if chk.tier == "quick" else 4)
+    chk.bounded_result("content_disposition_filenames", nf, nf, True, "all names over a 17-symbol alphabet (delimiters, space, non-ASCII, compatibility characters that NFKD-decompose to delimiters) up to length 3 (quick) / 4 (thorough)",
                        [{"detail": str(badf), "witness": badf, "class": "unsafe-header"}] if badf else [])
     n, d, failures, samples = bounded_status()
     chk.bounded_result("status_mapping_job_states", n, d, True,
@@ -434,11 +434,11 @@ def p4_content_disposition(chk):
     chk.prove("nserve.get_content_disposition", harness_disp, ex2, targets=[disp], replay=replay_filenames)
 
 
-def filename_search(maxlen=4):
+def filename_search(maxlen=3):
     """run-time contract of P4 on the real functions over all names of <= maxlen symbols"""
     import itertools
     from mwlib.core import nserve
-    alpha = ["a", " ", ";", ":", '"', "'", ",", "\u00f6", "_", "\u4e2d", "."]
+    alpha = ["a", " ", ";", ":", '"', "'", ",", "\u00f6", "_", "\u4e2d", ".", "\uff1b", "\uff0c", "\uff1a", "\uff02", "\u037e", "\uff07"]
     n = 0
     for ln in range(0, maxlen + 1):
         for t in itertools.product(alpha, repeat=ln):
